@@ -148,6 +148,12 @@ def c04_jobs(tier):
                     jobs.append(job(ROOT, "HDecodeDecryptArbitrary", [s, role, 1, hm, n, 1], solver="z3-new", cut=cut_dd))
                 for n in range(0, 28 + 8 + 1):
                     jobs.append(job(ROOT, "HDecodeDecryptArbitrary", [s, role, 1, hm, n, 0], solver="z3-new"))
+                # family 2: a skipped payload in front of the Encrypted payload (body 0 .. 16+16+icv)
+                for l1 in (4, 13):
+                    for body in range(0, 16 + 32 + 16 + 1):
+                        if q and (body + s + role + hm + l1) % 4 != 0 and body > 20:
+                            continue
+                        jobs.append(job(ROOT, "HDecodeDecryptArbitrary", [s, role, 1, hm, 28 + l1 + 4 + body, 2, l1], solver="z3-new", cut=cut_dd))
     for hm in (0, 1):
         for n in range(0, 28 + 8 + 1):
             jobs.append(job(ROOT, "HDecodeDecryptArbitrary", [0, 0, 0, hm, n, 0], **A))
@@ -224,6 +230,8 @@ def c20_jobs(tier):
                 jobs.append(job(ROOT, "HProtectFrame", [s, role, 0, k, 0]))
             jobs.append(job(ROOT, "HProtectFrame", [s, role, 0, 0]))
             jobs.append(job(ROOT, "HProtectFrame", [s, role, 0, 33, 48, 0]))
+    for v in (0, 1):
+        jobs.append(job(MSG, "HEncodeSharedContainers", [v]))
     # a decoded EAP-AKA' packet extended through the API: same octets under every map order
     for r, a1, a2 in ((0, 2, 4), (3, 6, 1), (5, 4, 2)):
         jobs.append(job(EAP, "HMarshalDeterministicDecoded", [r, a1, a2], map_orders=True))
@@ -247,6 +255,11 @@ def c02_jobs(tier):
                     jobs.append(job(ROOT, "HUnprotectArbitrary", [s, role, hm, n, 1], cut=cut_dd))
                 for n in range(0, nB + 1):
                     jobs.append(job(ROOT, "HUnprotectArbitrary", [s, role, hm, n, 0]))
+                for l1 in (4, 13):
+                    for body in range(0, 16 + 32 + 16 + 1):
+                        if q and (body + s + role + hm + l1) % 4 != 0 and body > 20:
+                            continue
+                        jobs.append(job(ROOT, "HUnprotectArbitrary", [s, role, hm, 28 + l1 + 4 + body, 2, l1], cut=cut_dd))
     # genuine messages, tampered / truncated / extended / reflected / presented under other keys
     shapes = [[], [40], [33, 41]] if q else [[]] + [[k] for k in PAYLOAD_KINDS] + [[33, 41], [47, 48]]
     for s in (suites if q else range(9)):
@@ -306,6 +319,9 @@ def c07_jobs(tier):
                 for role in (0, 1):
                     jobs.append(job(ROOT, "HTwoPartyKeys", [e, i, p, role, 40, 0]))
     jobs.append(job(SEC, "HIKESAKeysRefuse", []))
+    for k in range(9 if q else 27):
+        e, i, p = (k % 3, (k // 3) % 3, (k + k // 3) % 3) if q else (k % 3, (k // 3) % 3, k // 9)
+        jobs.append(job(SEC, "HIKESAKeysRepeated", [e, i, p, lens[k % len(lens)], lens[(k + 3) % len(lens)], 16, 32]))
     # long nonces / secrets (Ni|Nr may be 512 octets): one combination per PRF
     for p in range(3):
         for ln, ls in ((257, 16), (512, 256), (300, 512)):
@@ -337,6 +353,8 @@ def c08_jobs(tier):
         for e in range(3):
             for i in range(3):
                 jobs.append(job(SEC, "HChildKeys", [p, e, i, 16, 1000 + (3 if (p + e + i) % 2 else 0)]))
+        for i in range(4):
+            jobs.append(job(SEC, "HChildKeys", [p, (p + i) % 3, i, 16, 2000 + (5 if i % 2 else 0)]))
     return jobs
 
 
@@ -397,7 +415,9 @@ def c15_jobs(tier):
         for j in range(7):
             if i == j:
                 continue
-            jobs.append(job(EAP, "HMacReceiverForeignOrder", [i, j, 32]))
+            jobs.append(job(EAP, "HMacReceiverForeignOrder", [i, j, 32, -1]))
+            if 6 in (i, j) or 5 in (i, j) or not q:
+                jobs.append(job(EAP, "HMacReceiverForeignOrder", [i, j, 32, 0]))
     for m1, m2 in ((1 | 4, 2), (64, 16 | 32), (2, 1 | 64), (0, 0), (127, 4)):
         jobs.append(job(EAP, "HMacReceiverReuse", [m1, m2, 32]))
     return jobs
@@ -425,6 +445,7 @@ def c17_jobs(tier):
     for p in range(3):
         for j in (3, 64):
             jobs.append(job(SEC, "HChildKeys", [p, 1, p, 16, j]))
+        jobs.append(job(SEC, "HChildKeys", [p, 2, (p + 1) % 4, 16, 2003]))
     return jobs
 
 
@@ -465,8 +486,10 @@ def c11_jobs(tier):
             for w in (0, 1):
                 jobs.append(job(SEC, "HNameRoundTrip", [k, i, w]))
     for k in range(7):
-        for f in range(3):
+        for f in range(4):
             for w in (0, 1):
+                if f == 3 and (w == 0 or k > 1):
+                    continue  # long TLV values: the encryption transform through the wire
                 jobs.append(job(SEC, "HDecodeSymbolic", [k, f, w]))
     for ike in (0, 1):
         for which in range(4):
